@@ -317,19 +317,27 @@ func c17(args []string) error {
 							tot = math.Abs(ll[q])
 						}
 					}
-					local, grid := true, false
+					near1, near10, far := false, false, false
 					for q := 1; q < len(probes); q++ {
-						if q <= 4 && ll[q] > ll[0]+1e-9*tot {
-							local = false
-						}
-						if q > 4 && ll[q] > ll[0]+1e-9*tot {
-							grid = true
+						if ll[q] > ll[0]+1e-9*tot {
+							switch {
+							case q <= 2:
+								near1 = true
+							case q <= 4:
+								near10 = true
+							default:
+								far = true
+							}
 						}
 					}
-					if local && grid && mlsig == "none" {
-						mlsig = "local-maximum-below-a-grid-point"
-					} else if !local {
+					switch {
+					case near10:
 						mlsig = "not-a-local-maximum"
+					case near1 && mlsig != "not-a-local-maximum":
+						// a probe at +-1% is better but none at +-10%: the search stopped close to a maximum
+						mlsig = "stopped-within-10pct-of-a-maximum"
+					case far && mlsig == "none":
+						mlsig = "local-maximum-below-a-grid-point"
 					}
 				}
 				pt := make([]string, len(probes))
